@@ -1772,6 +1772,45 @@ func (r *Runner) reopen(kind string) bool {
 			h.SawCollClose = true
 		}
 	}
+	if e.Store != nil && r.O.Store && e.FS == nil && r.P.Seed%4 == 1 && !e.ReadOnly {
+		// With the collection closed nobody else persists: a direct
+		// Store.Persist(nil, CompactionForce) - documented for single-threaded
+		// use, "the higher snapshot may be nil" - compacts what the store
+		// holds and must not change a byte of its content.
+		if _, before, ok := r.storePrefix(); ok {
+			var perr error
+			ferr := Safe(func() error {
+				sn, err := e.Store.Persist(nil, moss.StorePersistOptions{CompactionConcern: moss.CompactionForce})
+				if sn != nil {
+					sn.Close()
+				}
+				perr = err
+				return nil
+			})
+			if ferr != nil {
+				r.viol("compaction", "direct-compaction-fault", "", ferr.Error())
+				return false
+			}
+			if perr != nil {
+				r.viol("compaction", "direct-compaction-error", errClass(perr.Error()), "Store.Persist(nil, CompactionForce) after Collection.Close: "+perr.Error())
+				return false
+			}
+			r.cnt("compaction.direct", 1)
+			if _, after, ok := r.storePrefix(); !ok {
+				return false
+			} else if m := DiffTree(after, before, nil); m != nil {
+				where := "top"
+				if len(m.Path) > 0 {
+					where = "child"
+				}
+				r.viol("compaction", "direct-compaction-changed-content/"+where, m.Kind,
+					"Store.Persist(nil, CompactionForce) after Collection.Close changed the store's content: "+m.String())
+				return false
+			}
+		} else {
+			return false
+		}
+	}
 	if e.Store != nil {
 		if err := e.CloseStore(); err != nil {
 			r.viol("close", "store-close-error", "", err.Error())
